@@ -5,7 +5,7 @@
 From Coq Require Import String.
 From Coq Require Import List Bool Arith Ascii NArith ZArith Lia.
 Import ListNotations.
-From Goag Require Import Base.Str Model.Router Model.Serve Model.Params Model.Json.
+From Goag Require Import Base.Str Model.Router Model.Serve Model.Params Model.Json Model.UrlEscape.
 
 Section Client.
   Variable fmt_float : Z -> str -> str.   (* strconv.FormatFloat(v, 'e', -1, bits) of the canonical value *)
@@ -78,6 +78,31 @@ Section Client.
         end
       | _ => None
       end
+    end.
+
+  (* the same walk keeping apart what is written as it is (literal
+     directories) and what goes through url.PathEscape (values) *)
+  Fixpoint client_psegs (dirs : list (str * option sch)) (fs : list field) : option (list pseg) :=
+    match dirs with
+    | [] => match fs with [] => Some [] | _ => None end
+    | (d, None) :: r => option_map (cons (PLit d)) (client_psegs r fs)
+    | (_, Some sc) :: r =>
+      match fs with
+      | FVal v :: fs' =>
+        match format_string sc v, client_psegs r fs' with
+        | Some s, Some segs => Some (PVal s :: segs)
+        | _, _ => None
+        end
+      | _ => None
+      end
+    end.
+
+  (* the URL the client puts on the wire (relative to the host) *)
+  Definition client_wire (bp : str) (od : opdecl) (v : parsed) : option str :=
+    match client_pairs (od_query od) (pq v), client_psegs (od_path od) (pp v) with
+    | Some q, Some ps =>
+      Some (wire_url bp ps (match od_query od with [] => false | _ => true end) q)
+    | _, _ => None
     end.
 
   (* the request as the server's handler sees it *)
